@@ -9,6 +9,7 @@ package c15
 
 import (
 	"bufio"
+	"bytes"
 	"context"
 	"encoding/json"
 	"fmt"
@@ -42,12 +43,13 @@ func TestMain(m *testing.M) {
 // ---- child ------------------------------------------------------------------------------------
 
 type childLog struct {
-	real   messages.Log
-	events *os.File
-	mu     *sync.Mutex // held by the appender around every Append; taken before a self-kill
-	crash  string      // "", "enter:k", "exit:k"
-	lastX  int64
-	xmu    sync.Mutex
+	real        messages.Log
+	events      *os.File
+	mu          *sync.Mutex // held by the appender around every Append; taken before a self-kill
+	crash       string      // "", "enter:k", "exit:k"
+	lastX       int64
+	xmu         sync.Mutex
+	appendsDone chan struct{}
 }
 
 func (l *childLog) say(format string, a ...interface{}) {
@@ -66,8 +68,18 @@ func (l *childLog) die() {
 }
 func (l *childLog) Consume(ctx context.Context, name string, f func(uint64, *packet.Publish) error) error {
 	return l.real.Consume(ctx, name, func(off uint64, p *packet.Publish) error {
-		l.say("E %d %s\n", off, p.Payload)
+		head := p.Payload
+		if i := bytes.IndexByte(head, '|'); i >= 0 {
+			head = head[:i] // large payloads: "msg-N|xxxx…"; only the head identifies the message
+		}
+		l.say("E %d %s %d\n", off, head, len(p.Payload))
 		if l.crash == fmt.Sprintf("enter:%d", off) {
+			l.die()
+		}
+		if l.crash == fmt.Sprintf("stall:%d", off) {
+			// the scheduler is stuck on this message (back-pressure) while the appends go on; the
+			// process is killed once they are done
+			<-l.appendsDone
 			l.die()
 		}
 		err := f(off, p)
@@ -106,7 +118,12 @@ func childMain() {
 		os.Exit(3)
 	}
 	mu := &sync.Mutex{}
-	l := &childLog{real: real, events: events, mu: mu, crash: crash, lastX: -1}
+	l := &childLog{real: real, events: events, mu: mu, crash: crash, lastX: -1, appendsDone: make(chan struct{})}
+	payloadKB, _ := strconv.Atoi(os.Getenv("C15_PAYLOAD_KB"))
+	filler := ""
+	if payloadKB > 0 {
+		filler = "|" + strings.Repeat("x", payloadKB*1024)
+	}
 	if strings.HasPrefix(crash, "delay") {
 		l.crash = ""
 	}
@@ -119,7 +136,7 @@ func childMain() {
 	}()
 	for i := 0; i < appendN; i++ {
 		mu.Lock()
-		err := l.Append(&packet.Publish{Header: &packet.Header{}, Topic: []byte("t"), Payload: []byte(fmt.Sprintf("msg-%d", start+i))})
+		err := l.Append(&packet.Publish{Header: &packet.Header{}, Topic: []byte("t"), Payload: []byte(fmt.Sprintf("msg-%d", start+i) + filler)})
 		if err == nil {
 			l.say("a %d\n", start+i) // inside the critical section: a self-kill never separates an append from its record
 		}
@@ -131,8 +148,9 @@ func childMain() {
 	}
 	total := start + appendN
 	l.say("A %d\n", total)
-	if strings.HasPrefix(crash, "delay") {
-		select {} // the parent kills us
+	close(l.appendsDone)
+	if strings.HasPrefix(crash, "delay") || strings.HasPrefix(crash, "stall") {
+		select {} // the parent kills us / the stalled consumer does
 	}
 	// graceful: stop when idle
 	deadline := time.Now().Add(20 * time.Second)
@@ -168,6 +186,10 @@ func childMain() {
 type Round struct {
 	Append int    `json:"append"`
 	Crash  string `json:"crash"`
+	// PayloadKB: size of each message appended in this round (0 = a few bytes). Large volumes
+	// matter because anything in the log layer that looks at bytes rather than at entries
+	// (segment sizes, retention) only shows with them.
+	PayloadKB int `json:"payload_kb,omitempty"`
 }
 
 type Case struct {
@@ -195,14 +217,19 @@ type incarnation struct {
 func runChild(dir, events string, start int, r Round) (*incarnation, *failure) {
 	os.Remove(events)
 	cmd := exec.Command(os.Args[0], "-test.run", "^$")
-	cmd.Env = append(os.Environ(), "C15_CHILD=1", "C15_DIR="+dir, "C15_EVENTS="+events, "C15_APPEND="+strconv.Itoa(r.Append), "C15_START="+strconv.Itoa(start), "C15_CRASH="+r.Crash, "VERIF_OUT=")
+	cmd.Env = append(os.Environ(), "C15_CHILD=1", "C15_DIR="+dir, "C15_EVENTS="+events, "C15_APPEND="+strconv.Itoa(r.Append), "C15_START="+strconv.Itoa(start), "C15_CRASH="+r.Crash, "C15_PAYLOAD_KB="+strconv.Itoa(r.PayloadKB), "VERIF_OUT=")
 	if err := cmd.Start(); err != nil {
 		return nil, &failure{"cannot start the child: " + err.Error(), true}
 	}
 	waitCh := make(chan error, 1)
 	go func() { waitCh <- cmd.Wait() }()
-	if strings.HasPrefix(r.Crash, "delay:") {
-		ms, _ := strconv.Atoi(strings.TrimPrefix(r.Crash, "delay:"))
+	if strings.HasPrefix(r.Crash, "delay:") || strings.HasPrefix(r.Crash, "stall:") {
+		// stall: the child kills itself when its appends are done, if the consumer ever reached
+		// the stalling offset; otherwise the parent does, generously later
+		ms := 3000
+		if strings.HasPrefix(r.Crash, "delay:") {
+			ms, _ = strconv.Atoi(strings.TrimPrefix(r.Crash, "delay:"))
+		}
 		deadline := time.Now().Add(60 * time.Second)
 		for time.Now().Before(deadline) {
 			b, _ := os.ReadFile(events)
@@ -211,8 +238,12 @@ func runChild(dir, events string, start int, r Round) (*incarnation, *failure) {
 			}
 			time.Sleep(time.Millisecond)
 		}
-		time.Sleep(time.Duration(ms) * time.Millisecond)
-		cmd.Process.Signal(syscall.SIGKILL)
+		select {
+		case err := <-waitCh: // already gone (a stalled consumer kills the process itself)
+			waitCh <- err
+		case <-time.After(time.Duration(ms) * time.Millisecond):
+			cmd.Process.Signal(syscall.SIGKILL)
+		}
 	}
 	select {
 	case <-waitCh:
@@ -280,7 +311,7 @@ func run(c Case) (f *failure, nontrivial bool) {
 			return f, nontrivial
 		}
 		total += inc.appended // a killed incarnation may not have appended everything it was asked to
-		if strings.HasPrefix(r.Crash, "enter:") || strings.HasPrefix(r.Crash, "exit:") {
+		if strings.HasPrefix(r.Crash, "enter:") || strings.HasPrefix(r.Crash, "exit:") || strings.HasPrefix(r.Crash, "stall:") {
 			k, _ := strconv.Atoi(r.Crash[strings.Index(r.Crash, ":")+1:])
 			if k > 0 && k < total-1 {
 				nontrivial = true
@@ -463,4 +494,19 @@ func maxInt(a, b int) int {
 		return a
 	}
 	return b
+}
+
+// TestLargeBacklog: the scheduler is stuck on an early message while several hundred large
+// messages (tens of MiB in all, more than one segment) are appended; the process is killed;
+// the next incarnation must be handed every one of them. Then the same once more on top.
+func TestLargeBacklog(t *testing.T) {
+	type sc struct{ n, kb, k int }
+	scs := []sc{{560, 200, 3}}
+	if ev.Tier() == "thorough" {
+		scs = append(scs, sc{1100, 128, 501}, sc{520, 300, 0}, sc{2100, 40, 7})
+	}
+	for _, x := range scs {
+		c := Case{Rounds: []Round{{Append: x.n, PayloadKB: x.kb, Crash: fmt.Sprintf("stall:%d", x.k)}, {Append: 30, Crash: "none"}, {Append: 510, PayloadKB: x.kb / 2, Crash: fmt.Sprintf("stall:%d", x.n+35)}}}
+		check(t, c, "large-backlog")
+	}
 }
